@@ -50,6 +50,25 @@ int main() {
       printf("\n");
       continue;
     }
+    if (tag == "AX") {
+      // AX <id> 12 numbers (row-major 3x4: r0c0 r0c1 r0c2 r0c3 r1c0 ...): Collider::IsAxisAligned, and - when it
+      // answers yes - Box::Transform of the given box next to the exact image hull of its 8 corners
+      std::string id;
+      in >> id;
+      double a[12];
+      for (auto& x : a) in >> x;
+      mat3x4 m({a[0], a[4], a[8]}, {a[1], a[5], a[9]}, {a[2], a[6], a[10]}, {a[3], a[7], a[11]});
+      long long b[6];
+      for (auto& x : b) in >> x;
+      Box bx(vec3(b[0], b[1], b[2]), vec3(b[3], b[4], b[5]));
+      const bool ax = Collider::IsAxisAligned(m);
+      Box t = bx.Transform(m), hull;
+      for (int c = 0; c < 8; ++c) hull.Union(m * vec4(c & 1 ? bx.max.x : bx.min.x, c & 2 ? bx.max.y : bx.min.y, c & 4 ? bx.max.z : bx.min.z, 1.0));
+      printf("X %s %d %lld %lld %lld %lld %lld %lld %lld %lld %lld %lld %lld %lld\n", id.c_str(), (int)ax, (long long)t.min.x, (long long)t.min.y,
+             (long long)t.min.z, (long long)t.max.x, (long long)t.max.y, (long long)t.max.z, (long long)hull.min.x, (long long)hull.min.y,
+             (long long)hull.min.z, (long long)hull.max.x, (long long)hull.max.y, (long long)hull.max.z);
+      continue;
+    }
     if (tag != "CASE") continue;
     std::string id;
     int n, m, self, kind;
